@@ -4,7 +4,7 @@
 From Coq Require Import List ZArith NArith String Bool.
 From SCC Require Import Lang.FunSyn Lang.CoreSyn Sem.AxSem Sem.CoreSem Sem.FunSem Model.Fun2Core Proof.Fun2CoreProof Proof.Fun2CoreSim.
 From SCC Require Import Proof.Fun2CoreMain Proof.Fun2CoreInv Proof.Fun2CoreRel Proof.Fun2CoreProg Proof.Fun2CoreBarendregt
-     Proof.Fun2CoreExamples.
+     Proof.Fun2CoreExamples Proof.Fun2CoreMainCalled.
 Import ListNotations.
 
 (* ---------- the property at full strength (statements) ----------
@@ -196,7 +196,16 @@ Print Assumptions C02_wc_expression_is_cut.
    bound terms are expressions).
    MISSING for fun2core_correct_guarded_statement: calls, constructors/case, new/destructors and
    by-name bindings, label/goto, `let` whose bound term is not an expression, and shared
-   continuations (a conditional or case in non-tail position). *)
+   continuations (a conditional or case in non-tail position).
+   THE HYPOTHESIS `calls_main_prog p = false` (since fix f929eb7 of /repo): when some OTHER definition calls main
+   (main itself has no calls), the repaired compile_prog compiles main with a return continuation a0 and starts at the
+   entry point main0; the simulation behind this theorem ([islf_sim], Proof/Fun2CoreSim.v) runs main's body against a
+   CLOSED mu~ continuation in a Core environment of integers only, not against a covariable bound to a closure, so that
+   case is not covered HERE.  It is covered by C02_fun2core_correct_fragment2 (which has no such hypothesis and
+   simulates the entry point) for every program all of whose definitions satisfy prog_guard and for final outcomes:
+   C02_islf_main_called_witness below is such a program (main in [islf], called by another definition), simulated by
+   the THEOREM.  What fragment2 does not give for a called islf main: arbitrary (unguarded) other definitions and the
+   stuck outcome `unbound variable`. *)
 Theorem C02_fun2core_correct_partial :
   forall (p : fcprog) (c : cprog) (d : fdef) (args : list Z) (n : nat) (o : obs),
     compile_prog p = Ok c ->
@@ -208,6 +217,23 @@ Theorem C02_fun2core_correct_partial :
     exists m, run_core m c args = o.
 Proof. exact fun2core_correct_partial_lemma. Qed.
 Print Assumptions C02_fun2core_correct_partial.
+(* a program with main in [islf] AND called by another definition: outside the hypothesis above, inside prog_guard;
+   its translation starts with main0, main, and every final source run is reproduced (by C02_fun2core_correct_fragment2) *)
+Theorem C02_islf_main_called_witness :
+  main_in_fragment islf_main_called_witness = true /\ calls_main_prog islf_main_called_witness = true /\
+  prog_guard islf_main_called_witness = true /\ NoDup (map fdname (fcpdefs islf_main_called_witness)) /\
+  compile_prog islf_main_called_witness = Ok (compiled_or_empty islf_main_called_witness) /\
+  run_core 200 (compiled_or_empty islf_main_called_witness) [4%Z] = run_fun 200 islf_main_called_witness [4%Z] /\
+  run_fun 200 islf_main_called_witness [4%Z] = ([(true, 5%Z)], OExit 8%Z) /\
+  map cdname (cpdefs (compiled_or_empty islf_main_called_witness)) = [new_id "main0"; new_id "main"; new_id "helper"].
+Proof. exact islf_main_called_witness_facts. Qed.
+Print Assumptions C02_islf_main_called_witness.
+Theorem C02_islf_main_called_witness_simulated : forall (c : cprog) (args : list Z) (n : nat) (o : obs),
+  compile_prog islf_main_called_witness = Ok c ->
+  run_fun n islf_main_called_witness args = o -> final o ->
+  exists m, run_core m c args = o.
+Proof. exact islf_main_called_witness_simulated. Qed.
+Print Assumptions C02_islf_main_called_witness_simulated.
 
 (* ---------- semantic preservation, fragment 2: data AND codata ----------
    A strictly larger fragment than C02_fun2core_correct_partial (which stays as it is): ANY number of
@@ -219,8 +245,9 @@ Print Assumptions C02_fun2core_correct_partial.
    and CODATA: `new { .. }` (closures, corecursion), destructor calls, by-name `let` and by-name
    arguments (thunks re-run at every destructor call that reaches them).
 
-   The fragment, spelled out ([frag p t], Model/Fun2CoreGuard.v): all 15 term forms, EXCEPT
-     - a call whose target is `main`                                        (finding call-to-main),
+   The fragment, spelled out ([frag p t], Model/Fun2CoreGuard.v): all 15 term forms - calls whose target is `main`
+   INCLUDED since fix f929eb7 of /repo (former finding call-to-main; then main has pairwise distinct parameters: the
+   entry point passes them on by name) -, EXCEPT
      - a destructor call in which BOTH the scrutinee and some argument need evaluation (allowed:
        scrutinee a variable or a `new` with arbitrary data arguments; any scrutinee - calls, chained
        destructor calls, lets, .. - with arguments that are variables or literals): there the
